@@ -5,6 +5,7 @@ package interp
 // deep copy of the marshalled message; anything else fails to parse.
 
 import (
+	"crypto/sha256"
 	"fmt"
 	"go/types"
 	"strings"
@@ -13,6 +14,7 @@ import (
 )
 
 type protoToken struct {
+	size   value // modelled length of the wire encoding
 	tok    value // string value of the token
 	shape  string
 	leaves []value
@@ -153,7 +155,7 @@ func (fr *frame) protoMarshal(m iface) value {
 	}
 	p := m.v.(*value)
 	if p == nil {
-		return tuple{symBytes{""}, nilErr}
+		return tuple{symBytes{"", nil}, nilErr}
 	}
 	var shape strings.Builder
 	var leaves []value
@@ -168,7 +170,7 @@ func (fr *frame) protoMarshal(m iface) value {
 		}
 	}
 	sh := shape.String()
-	var tok value
+	var tok, size value
 	if allConcrete {
 		var b strings.Builder
 		b.WriteString("PB1" + sh + "|")
@@ -176,10 +178,14 @@ func (fr *frame) protoMarshal(m iface) value {
 			s := toString(normStr(l))
 			fmt.Fprintf(&b, "%d:%s,", len(s), s)
 		}
-		tok = b.String()
+		canonical := b.String()
+		// short fixed-length token (digest of the canonical rendering): long constants are costly for the solver
+		sum := sha256.Sum256([]byte(canonical))
+		tok = fmt.Sprintf("PB1%x", sum[:8])
+		size = len(canonical)
 		for _, t := range toks {
 			if ts, ok := normStr(t.tok).(string); ok && ts == tok {
-				return tuple{symBytes{tok}, nilErr}
+				return tuple{symBytes{tok, size}, nilErr}
 			}
 		}
 	} else {
@@ -196,13 +202,17 @@ func (fr *frame) protoMarshal(m iface) value {
 				}
 			}
 			if same {
-				return tuple{symBytes{t.tok}, nilErr}
+				return tuple{symBytes{t.tok, t.size}, nilErr}
 			}
 		}
 		tv := r.declare(r.fresh("PB"), smt.SString, "proto")
 		// tokens are non-empty and start with the marker so they never equal other file contents by accident
 		r.assertPC(smt.PrefixOf(smt.StrC("PB1"), tv))
+		r.assertPC(smt.Eq(smt.StrLen(tv), smt.IntC(19)))
 		tok = symStr{tv}
+		sz := r.declare(r.fresh("pbsize"), smt.SInt, "size")
+		r.assertPC(smt.And(smt.Le(smt.IntC(1), sz), smt.Le(sz, smt.IntC(1<<20))))
+		size = symInt{sz, types.Int}
 	}
 	// injectivity against earlier tokens
 	for _, t := range toks {
@@ -219,9 +229,9 @@ func (fr *frame) protoMarshal(m iface) value {
 		}
 		r.assertPC(smt.Eq(strEqTerm(t.tok, tok), smt.And(conj...)))
 	}
-	toks = append(toks, &protoToken{tok: tok, shape: sh, leaves: leaves, ltypes: ltypes, snap: copyMsg(*p, ptr.Elem()), typ: ptr.Elem()})
+	toks = append(toks, &protoToken{size: size, tok: tok, shape: sh, leaves: leaves, ltypes: ltypes, snap: copyMsg(*p, ptr.Elem()), typ: ptr.Elem()})
 	r.objs["protoTokens"] = toks
-	return tuple{symBytes{tok}, nilErr}
+	return tuple{symBytes{tok, size}, nilErr}
 }
 
 func (fr *frame) protoUnmarshal(data value, m iface) value {
